@@ -625,6 +625,11 @@ class ClientSSM(SSM):
     def segmented_confirmation(self, apdu):
         if _debug: ClientSSM._debug("segmented_confirmation %r", apdu)
 
+        # a late ack for a segment of the request, the response has started
+        if (apdu.apduType == SegmentAckPDU.pduType):
+            if _debug: ClientSSM._debug("    - late segment ack")
+            return
+
         # the only messages we should be getting are complex acks
         if (apdu.apduType != ComplexAckPDU.pduType):
             if _debug: ClientSSM._debug("    - complex ack required")
